@@ -241,6 +241,14 @@ func (cr *checkRun) knownFor(id string) *knownEntry {
 			return &cr.known[i]
 		}
 	}
+	// the same listed defect seen from a harness that another property shares
+	for i := range cr.known {
+		if cr.known[i].ID == id && cr.known[i].Kind == "known" {
+			e := cr.known[i]
+			e.Text = "property=" + cr.check.ID + " (listed under property=" + e.Prop + ") " + strings.TrimPrefix(e.Text, "property="+e.Prop+" ")
+			return &e
+		}
+	}
 	return nil
 }
 
